@@ -180,7 +180,15 @@ pub fn mappings_for(models: &[CClass], stream: &[u8]) -> MapSet {
 		n += 1;
 		format!("{prefix}{n}")
 	};
-	for (i, c) in CLASS_NAMES.iter().enumerate() {
+	let mut universe: Vec<String> = CLASS_NAMES.iter().map(|s| s.to_string()).collect();
+	for m in models {
+		for n in std::iter::once(&m.name).chain(m.super_class.iter()).chain(m.interfaces.iter()) {
+			if !universe.contains(n) {
+				universe.push(n.clone());
+			}
+		}
+	}
+	for (i, c) in universe.iter().enumerate() {
 		if d.pct(65) {
 			let new = match d.next() % 4 {
 				0 => fresh("N"),
@@ -226,18 +234,66 @@ pub fn canon_blank(c: &CClass) -> CClass {
 
 fn check(case: &Case, obs: &mut Obs) -> PropResult {
 	let models = jar_models(&case.streams, 4, 30);
-	let mut entries: Vec<(String, Entry)> = vec![("META-INF/MANIFEST.MF".into(), Entry::Other(b"Manifest-Version: 1.0\r\n".to_vec())), ("pkg/".into(), Entry::Dir)];
 	let mut class_bytes: Vec<(String, Vec<u8>)> = Vec::new();
 	for m in &models {
 		match encode(m, &case.ch) {
-			Ok(e) => {
-				entries.push((format!("{}.class", m.name), Entry::Class(e.bytes.clone())));
-				class_bytes.push((m.name.clone(), e.bytes));
-			}
+			Ok(e) => class_bytes.push((m.name.clone(), e.bytes)),
 			Err(_) => obs.label("class_not_encodable"),
 		}
 	}
-	entries.push(("assets/data.bin".into(), Entry::Other(case.map_stream.clone())));
+	check_jar(class_bytes, &models, &case.map_stream, case.input_form, obs)
+}
+
+#[derive(Clone, Debug, Serialize, Deserialize)]
+pub struct CorpusCase {
+	pub picks: Vec<u16>,
+	pub map_stream: Vec<u8>,
+	pub input_form: u8,
+}
+
+fn corpus_models() -> &'static Vec<(String, Vec<u8>, CClass)> {
+	static C: std::sync::OnceLock<Vec<(String, Vec<u8>, CClass)>> = std::sync::OnceLock::new();
+	C.get_or_init(|| {
+		crate::corpus::load()
+			.into_iter()
+			// one compilation only (class names must be unique inside a jar); the big class is left to C01/C02
+			.filter(|(n, b)| n.starts_with("r17g/") && b.len() < 20_000)
+			.filter_map(|(n, b)| crate::classfile::decode::decode(&b).ok().map(|m| (n, b, m)))
+			.collect()
+	})
+}
+
+fn corpus_check(case: &CorpusCase, obs: &mut Obs) -> PropResult {
+	let all = corpus_models();
+	if all.is_empty() {
+		return Ok(());
+	}
+	let mut seen = BTreeSet::new();
+	let mut class_bytes = Vec::new();
+	let mut models = Vec::new();
+	for p in &case.picks {
+		let (_, b, m) = &all[crate::engine::idx(*p, all.len())];
+		if seen.insert(m.name.clone()) {
+			class_bytes.push((m.name.clone(), b.clone()));
+			let mut m = m.clone();
+			strip_unknown(&mut m.attrs);
+			models.push(m);
+		}
+	}
+	check_jar(class_bytes, &models, &case.map_stream, case.input_form, obs)
+}
+
+fn check_jar(class_bytes: Vec<(String, Vec<u8>)>, models: &[CClass], map_stream: &[u8], input_form: u8, obs: &mut Obs) -> PropResult {
+	struct CaseView<'a> {
+		map_stream: &'a [u8],
+		input_form: u8,
+	}
+	let case = CaseView { map_stream, input_form };
+	let mut entries: Vec<(String, Entry)> = vec![("META-INF/MANIFEST.MF".into(), Entry::Other(b"Manifest-Version: 1.0\r\n".to_vec())), ("pkg/".into(), Entry::Dir)];
+	for (n, b) in &class_bytes {
+		entries.push((format!("{n}.class"), Entry::Class(b.clone())));
+	}
+	entries.push(("assets/data.bin".into(), Entry::Other(case.map_stream.to_vec())));
 	entries.push(("a/B.txt".into(), Entry::Other(b"a/B C pkg/Outer$Inner".to_vec())));
 	if class_bytes.is_empty() {
 		return Ok(());
@@ -249,7 +305,7 @@ fn check(case: &Case, obs: &mut Obs) -> PropResult {
 		inputs.insert(n.clone(), project(&tree).map_err(|e| format!("harness: {e}"))?);
 	}
 	let kept_models: Vec<CClass> = models.iter().filter(|m| inputs.contains_key(&m.name)).cloned().collect();
-	let set = mappings_for(&kept_models, &case.map_stream);
+	let set = mappings_for(&kept_models, case.map_stream);
 	let q = to_quill::<2, Ns>(&set, 0).map_err(|e| format!("harness: mapping set not expressible: {e:#}"))?;
 
 	let jar = build_jar(&entries, case.input_form == 1)?;
@@ -401,4 +457,10 @@ pub fn run(ctx: &mut Ctx) {
 	ctx.assume("unknown attributes are not generated here (their bytes may hold constant pool indices; dukebox drops them)");
 	ctx.assume("inheritance among the classes of a jar is acyclic");
 	ctx.run_sub("remap_jar", ctx.tier.pick(12000, 600000), strategy, check);
+	ctx.run_sub(
+		"corpus_javac",
+		ctx.tier.pick(2000, 60_000),
+		|| (proptest::collection::vec(any::<u16>(), 1..6), proptest::collection::vec(any::<u8>(), 0..160), 0u8..3).prop_map(|(picks, map_stream, input_form)| CorpusCase { picks, map_stream, input_form }),
+		corpus_check,
+	);
 }
